@@ -1,0 +1,102 @@
+//go:build verif
+
+package bttest
+
+// Verification hooks. This file is compiled only with `-tags verif`; nothing in it is
+// reachable from a normal build.
+
+import (
+	"cloud.google.com/go/bigtable"
+	btapb "cloud.google.com/go/bigtable/admin/apiv2/adminpb"
+	btpb "cloud.google.com/go/bigtable/apiv2/bigtablepb"
+)
+
+// VerifService gives in-process access to the unexported service implementation
+// (no listener, no background GC loop).
+type VerifService struct {
+	s *server
+}
+
+// NewVerifService builds the service exactly as NewServerWithOptions does, minus the
+// network listener and the gcloop goroutine.
+func NewVerifService(st Storage, clock func() bigtable.Timestamp) *VerifService {
+	if st == nil {
+		st = LeveldbMemStorage{}
+	}
+	if clock == nil {
+		clock = bigtable.Now
+	}
+	s := &server{
+		storage: st,
+		tables:  make(map[string]*table),
+		clock:   clock,
+		done:    make(chan struct{}),
+	}
+	for _, tbl := range s.storage.GetTables() {
+		rows := s.storage.Open(tbl)
+		s.tables[tbl.Name] = newTable(tbl, rows)
+	}
+	return &VerifService{s: s}
+}
+
+// Data returns the data-plane service.
+func (v *VerifService) Data() btpb.BigtableServer { return v.s }
+
+// Admin returns the table-admin service.
+func (v *VerifService) Admin() btapb.BigtableTableAdminServer { return v.s }
+
+// ForceGC runs one GC pass on the named table now, with the service's clock.
+// It reports false if the table does not exist.
+func (v *VerifService) ForceGC(name string) bool {
+	v.s.mu.Lock()
+	tbl, ok := v.s.tables[name]
+	v.s.mu.Unlock()
+	if !ok {
+		return false
+	}
+	tbl.gc(v.s.clock(), v.s.done, true)
+	return true
+}
+
+// Close closes every table's row store (as Server.Close does).
+func (v *VerifService) Close() {
+	v.s.mu.Lock()
+	var tbls []*table
+	for _, t := range v.s.tables {
+		tbls = append(tbls, t)
+	}
+	v.s.mu.Unlock()
+	for _, tbl := range tbls {
+		tbl.mu.Lock()
+		tbl.rows.Close()
+		tbl.mu.Unlock()
+	}
+}
+
+// VerifSetRandFloat pins the random source of the row-sample filter; nil restores it.
+func VerifSetRandFloat(f func() float64) {
+	if f == nil {
+		f = defaultRandFloat
+	}
+	randFloat = f
+}
+
+var defaultRandFloat = randFloat
+
+// VerifYield, when set, is called at the named scheduling points.
+var VerifYield func(point string)
+
+// VerifCrashPoint, when set, is called at the named points inside disk persistence.
+var VerifCrashPoint func(point string)
+
+func verifYield(point string) {
+	if f := VerifYield; f != nil {
+		f(point)
+	}
+}
+
+func verifCrashPoint(point string) {
+	if f := VerifCrashPoint; f != nil {
+		f(point)
+	}
+}
